@@ -26,7 +26,7 @@ theorem step_login_offline {cfg env} {s : St} {name nonce : Bytes} (hp : s.phase
     (hd : decodable name = true) (hv : validName name = true) (hden : cfg.preLogin ≠ .denied)
     (hn : needsAuth cfg = false) :
     step cfg env s (.login name nonce) =
-      ({ phase := .successSent, name := name }, .preLoginEvent name :: admit cfg name false) := by
+      ({ phase := .successSent, name := name }, .preLoginEvent name :: admitSeq cfg name false) := by
   simp [step, hp, hd, hv, hden, hn]
 
 theorem step_enc_noverify {cfg env} {s : St} {tok secret} (hp : s.phase = .encSent) (he : s.verify.isEmpty = true) :
@@ -60,7 +60,7 @@ theorem step_enc_badprofile {cfg env} {s : St} {sec : Bytes} (hp : s.phase = .en
 theorem step_enc_online {cfg env} {s : St} {sec : Bytes} (hp : s.phase = .encSent) (he : s.verify.isEmpty = false)
     (hk : keyLenOk sec.length = true) (hs : env.sess s.name sec = .online) :
     step cfg env s (.encResp (some s.verify) (some sec)) =
-      ({ s with phase := .successSent }, [.encOn sec, .hasJoined s.name sec] ++ admit cfg s.name true) := by
+      ({ s with phase := .successSent }, [.encOn sec, .hasJoined s.name sec] ++ admitSeq cfg s.name true) := by
   simp [step, hp, he, hk, hs]
 
 theorem step_login_wrong {cfg env} {s : St} {name nonce : Bytes} (h : s.phase = .encSent ∨ s.phase = .successSent) :
@@ -86,10 +86,10 @@ def isAdmission : Out → Bool
 
 /-- the only way to an admission when authentication is required -/
 def chain (cfg : Cfg) (name nonce sec : Bytes) : List Out :=
-  [.preLoginEvent name, .encReq nonce, .encOn sec, .hasJoined name sec] ++ admit cfg name true
+  [.preLoginEvent name, .encReq nonce, .encOn sec, .hasJoined name sec] ++ admitSeq cfg name true
 
-theorem admit_no_admission_false (cfg : Cfg) (n : Bytes) (o : Bool) : (admit cfg n o).any isAdmission = true := by
-  cases hc : cfg.compression <;> simp [admit, hc, isAdmission]
+theorem admit_no_admission_false (cfg : Cfg) (n : Bytes) (o : Bool) : (admitSeq cfg n o).any isAdmission = true := by
+  cases hc : cfg.compression <;> simp [admitSeq, hc, isAdmission]
 
 /-- everything the machine has emitted so far is either free of admissions, or starts with the full chain
     (justified by the inputs consumed so far) followed by admission-free output -/
@@ -233,8 +233,8 @@ def rank : Phase → Nat
 
 def successCount (outs : List Out) : Nat := (outs.filter fun o => match o with | .success _ _ => true | _ => false).length
 
-theorem admit_successCount (cfg : Cfg) (n : Bytes) (o : Bool) : successCount (admit cfg n o) = 1 := by
-  cases hc : cfg.compression <;> simp [admit, hc, successCount]
+theorem admit_successCount (cfg : Cfg) (n : Bytes) (o : Bool) : successCount (admitSeq cfg n o) = 1 := by
+  cases hc : cfg.compression <;> simp [admitSeq, hc, successCount]
 
 theorem closeWith_rank (o : List Out) : rank (closeWith o).1.phase = 4 := rfl
 
